@@ -10,6 +10,7 @@
                         deflate stream is chunked / flushed)
              identity has the single frame kind "raw"
      level   default | min | mid | max            (concretised to every level of the class by the driver)
+     window  std | large   (zstd: does the frame header ask for a decoder window above 8 MiB -- see Windows below)
      len     zero | one | small | chunk_minus | chunk | chunk_plus | large
              (chunk = the decompressor's 64 KiB read size; the driver takes every length 0..64 for "small")
      cap     none | zero | len_minus_1 | len | len_plus_1 | large
@@ -36,6 +37,19 @@ CONSTANT Dev_IdentityIgnoresCap
                    fallback when compression does not pay)                                                       *)
 Entries == {"codec", "legacy", "header", "chain", "middleware", "token"}
 
+(* Window class of a zstd frame -- how far back the frame header says the decoder must be able to look:
+     "std"    at most 8 MiB: every level up to 19, and any frame whose (known) content is that small
+     "large"  above 8 MiB: the "ultra" levels 20-22 (windows of 32 / 64 / 128 MiB) and long-distance matching.
+              A streaming producer that does not know the total writes the level's full window into the header
+              however small the payload is; a size-declaring frame has a large window only when the payload itself
+              is larger than 8 MiB.
+   The window is a property of the producer, not of the data; the verdict must not depend on it.                *)
+Windows == {"std", "large"}
+WindowOK(x) == x.window = "std"
+               \/ (/\ x.codec = "zstd" /\ x.entry = "codec" /\ x.level = "max"
+                   /\ (x.frame = "stream" => x.len # "zero")           \* an empty streaming frame declares size 0
+                   /\ (x.frame = "oneshot" => x.len = "large"))        \* sized frame: only a payload > 8 MiB gets there
+
 Codecs == {"zstd", "gzip", "identity"}
 FramesOf(codec) == IF codec = "identity" THEN {"raw"} ELSE {"oneshot", "stream"}
 Levels == {"default", "min", "mid", "max"}
@@ -50,10 +64,12 @@ EntryOK(x) ==
     [] x.entry = "chain"      -> x.codec # "identity" /\ x.frame = "oneshot" /\ x.level = "default" /\ x.len # "zero"   \* codec = the outer coding
     [] x.entry = "middleware" -> x.codec # "identity" /\ x.frame = "stream" /\ x.len # "zero"       \* empty bodies are not compressed
     [] x.entry = "token"      -> x.codec = "zstd" /\ x.frame = "oneshot" /\ x.level = "default" /\ x.cap = "none"
-Cases == {x \in [entry : Entries, codec : Codecs, frame : {"raw", "oneshot", "stream"}, level : Levels, len : Lens, cap : Caps] :
+Cases == {x \in [entry : Entries, codec : Codecs, frame : {"raw", "oneshot", "stream"}, level : Levels, window : Windows, len : Lens,
+                 cap : Caps] :
               /\ x.frame \in FramesOf(x.codec)
               /\ x.level \in LevelsOf(x.codec)
               /\ EntryOK(x)
+              /\ WindowOK(x)
               /\ ~(x.len = "zero" /\ x.cap = "len_minus_1")}          \* there is no cap -1
 
 \* ---------------------------------------------------------------- oracle on classes
@@ -76,8 +92,8 @@ CapMonotone(c) == \A k \in Caps : LET c2 == [c EXCEPT !.cap = k] IN
     (/\ c2 \in Cases /\ c.cap # "none" /\ k # "none"
      /\ CapVal(k, RepLen(c.len)) >= CapVal(c.cap, RepLen(c.len))
      /\ Expected(c) = "original") => Expected(c2) = "original"
-FrameBlind(c) == \A f \in FramesOf(c.codec), lv \in LevelsOf(c.codec), e \in Entries :   \* the verdict never depends on frame kind,
-    Expected([c EXCEPT !.frame = f, !.level = lv, !.entry = e]) = Expected(c)                  \* level or entry point
+FrameBlind(c) == \A f \in FramesOf(c.codec), lv \in LevelsOf(c.codec), e \in Entries, w \in Windows :   \* the verdict never depends on
+    Expected([c EXCEPT !.frame = f, !.level = lv, !.entry = e, !.window = w]) = Expected(c)         \* frame kind, level, entry point, window
 
 \* ---------------------------------------------------------------- judging what the real code did
 (* observation o = [n, cap, outcome]
